@@ -113,9 +113,9 @@ def RP_HMC(model):
 def c02_hmc_step(out, tier, seed):
     eng = mir_load.load_engine()
     mirsym.MUL_MODE["mode"] = "uf"
-    configs = [(1, 1, 0), (1, 1, 1), (2, 2, 1), (2, 1, 2), (1, 2, 2)]
+    configs = [(1, 1, 0), (1, 1, 1), (2, 2, 1), (2, 1, 2), (1, 2, 2), (2, 2, 2), (1, 1, 3)]
     if tier == "thorough":
-        configs += [(2, 2, 2), (1, 1, 3), (2, 2, 3), (1, 3, 2), (3, 1, 1), (1, 1, 4)]
+        configs += [(2, 2, 3), (1, 3, 2), (3, 1, 1), (1, 1, 4), (3, 2, 2), (2, 3, 2), (1, 2, 4)]
     u = MUnit(out, "C02", "c02_hmc_step", eng,
               functions=["HMC::step (+ mask closure)", "HMC::leapfrog (+ its inplace closures)"],
               bounds=["(chains, dim, L) in %s; positions, step size, momenta, acceptance uniforms and the gradient carry "
